@@ -168,12 +168,11 @@ def get_assignment_class(smarts_filename, nb_filename):
     global _global_assignment_class, _global_nonbonded_itp_file, _global_smarts_rule_file
     if (
         _global_assignment_class is None
-        or smarts_filename != _global_nonbonded_itp_file
-        or nb_filename != _global_smarts_rule_file
+        or smarts_filename != _global_smarts_rule_file
+        or nb_filename != _global_nonbonded_itp_file
     ):
+        # Only remember the file names once the files have been read successfully.
+        _global_assignment_class = SMARTS_ASSIGNMENTS(smarts_filename, nb_filename)
+        _global_smarts_rule_file = smarts_filename
         _global_nonbonded_itp_file = nb_filename
-        _global_nonbonded_itp_file = smarts_filename
-        _global_assignment_class = SMARTS_ASSIGNMENTS(
-            _global_smarts_rule_file, _global_nonbonded_itp_file
-        )
     return _global_assignment_class
